@@ -28,6 +28,8 @@ def configs(tier):
         add(spec('global', 'clenshaw-curtis', 2, 1, 3, 'ipcurved', aniso=2), 'Ud'); add(spec('global', 'leja', 2, 1, 2, 'qptotal', aniso=1), 'U'); add(spec('sequence', 'rleja', 2, 1, 2, 'iphyperbolic'), 'U'); add(spec('global', 'clenshaw-curtis', 2, 1, 2, 'tensor'), 'Ud')
         add(spec('wavelet', 'wavelet', 2, 1, 1, order=1), 'Sc'); add(spec('wavelet', 'wavelet', 2, 1, 0, order=3), 'Sc,Sc'); add(spec('wavelet', 'wavelet', 1, 1, 1, order=3), 'Sc,K'); add(spec('fourier', 'fourier', 2, 1, 1), 'A', 0); add(spec('fourier', 'fourier', 2, 1, 1), 'K', 1)
     else:
+        for rule in SEQUENCE_RULES: add(spec('sequence', rule, 2, 1, 1), 'A4,A4,A4', 0, max_paths=80); add(spec('sequence', rule, 2, 1, 2), 'A7,A4', 1, max_paths=60)
+        add(spec('global', 'rleja', 2, 1, 1), 'A4,A7,A4', 0, max_paths=80); add(spec('global', 'clenshaw-curtis', 2, 1, 1), 'A4,A7', 0, max_paths=60); add(spec('fourier', 'fourier', 2, 1, 0), 'A4,A7', 0, max_paths=60)
         for rule in ('clenshaw-curtis', 'fejer2', 'rleja', 'leja', 'rleja-odd', 'min-delta', 'gauss-patterson', 'rleja-double2'):
             for ops, p in (('A,A', 0), ('U,A', 1), ('A,X,A', 0), ('K', 0), ('K', 1), ('A,U,K', 0)): add(spec('global', rule, 2, 1, 1), ops, p, max_paths=80)
         for rule in ('clenshaw-curtis', 'fejer2', 'rleja', 'leja', 'gauss-patterson', 'gauss-legendre', 'chebyshev'):
